@@ -52,6 +52,24 @@ pub fn generate(g: &mut Gen) {
             g.push(format!("t.gettriple {} T {} {} {}", qt(&v3), c, h, w), Tol::Exact, "gettriple/vec/short", true);
         }
     }
+    // contents that are nearly constant (neighbours a few 1e-6 apart, tiny values of both signs), exactly constant, sorted:
+    // every element is carried over as it is, through every arm
+    for (c, h, w) in [(1usize, 2usize, 3usize), (2, 2, 2), (1, 1, 6), (3, 2, 1), (2, 3, 4)] {
+        let n = c * h * w;
+        let ramps: Vec<Vec<f32>> = vec![(0..n).map(|i| 5e-6 * i as f32).collect(), (0..n).map(|i| 1.0 + 3e-6 * i as f32).collect(),
+            (0..n).map(|i| if i % 2 == 0 { 1e-7 } else { -4e-7 } * (1 + i) as f32).collect(), vec![0.25; n], (0..n).map(|i| i as f32).collect(),
+            (0..n).map(|i| (n - i) as f32 * 1e-6).collect()];
+        for v in ramps {
+            let flat = Tensor::single(v.clone());
+            let t3 = Tensor::triple(v.chunks(h * w).map(|m| m.chunks(w).map(|r| r.to_vec()).collect()).collect());
+            g.push(format!("t.reshape {} T {} {} {}", qt(&flat), c, h, w), Tol::Exact, "reshape/vec->3d/near-constant", true);
+            g.push(format!("t.gettriple {} T {} {} {}", qt(&flat), c, h, w), Tol::Exact, "gettriple/vec/near-constant", true);
+            g.push(format!("t.reshape {} S {}", qt(&t3), n), Tol::Exact, "reshape/3d->vec/near-constant", true);
+            g.push(format!("t.reshape {} T {} {} {}", qt(&t3), w, h, c), Tol::Exact, "reshape/3d->3d/near-constant", true);
+            g.push(format!("t.flatten {}", qt(&t3)), Tol::Exact, "flatten/near-constant", true);
+            g.push(format!("t.getflat {}", qt(&t3)), Tol::Exact, "getflat/near-constant", true);
+        }
+    }
     // vector -> vector (identity arm), unsupported arms
     for n in 1..=4 {
         let v = g.tensor_of(&Shape::Single(n), false);
